@@ -208,7 +208,7 @@ pub mod passkey_types {
         //@ source wcommon passkey-types/src/webauthn/common.rs
         //@ source wattest passkey-types/src/webauthn/attestation.rs
         //@ extract wcommon enum PublicKeyCredentialType
-        //@   derive PartialEq Eq
+        //@   derive PartialEq Eq Structural
         //@ extract wcommon enum AuthenticatorTransport
         //@ extract wcommon struct PublicKeyCredentialDescriptor
         //@ extract wattest struct PublicKeyCredentialUserEntity
@@ -569,6 +569,11 @@ pub mod authenticator {
     //@ source auth passkey-authenticator/src/authenticator.rs
     //@ extract auth struct CredentialIdLength
     //@ extract auth struct Authenticator
+    // C02: an entry of the relying party's preference list that the authenticator supports: a public-key credential
+    // (entries of an unknown type are to be ignored, WebAuthn create() step 9.2) with one of its algorithms
+    pub open spec fn supported_entry(algs: Seq<iana::Algorithm>, p: webauthn::PublicKeyCredentialParameters) -> bool {
+        p.ty is PublicKey && algs.contains(p.alg)
+    }
     impl<S, U> Authenticator<S, U> {
         // views of private fields for contracts of functions in other modules
         pub closed spec fn v_store(&self) -> S { self.store }
